@@ -86,7 +86,7 @@ def gen_cases(ctx):
             d.update(hash=hn, proofs=2, shape="corpus")
             d.setdefault("atomic", False)
             cases.append(d)
-    n_toy, n_sha = (36, 14) if quick else (1500, 500)
+    n_toy, n_sha = (36, 14) if quick else (500, 200)
     for i in range(n_toy + n_sha):
         hn = "toy" if i < n_toy else "sha"
         c = tg.rand_case(rng, hn, nkeys=rng.choice([1, 2, 3, 4, 5, 6, 8]), nbatches=rng.choice([1, 2, 3, 4]),
@@ -182,6 +182,63 @@ def variants(rng, p, hname, exhaustive=False):
     return out
 
 
+SDB_ENGINE = os.path.join(vf.HARNESS, "engines/trie/zz_verif_statedb_proof_engine_test.go")
+
+
+def statedb_cases(rng, n):
+    cases = []
+    names = ["acct%d" % i for i in range(12)]
+    vnames = ["var%d" % i for i in range(8)]
+    for _ in range(n):
+        rounds = []
+        for ri in range(rng.choice([1, 2, 3])):
+            accts = {a: rng.randrange(1, 1000) for a in rng.sample(names, rng.randrange(1, 7))}
+            if ri == 0:
+                accts["ctr"] = 1
+            vs = {}
+            for v in rng.sample(vnames, rng.randrange(0, 5)):
+                vs[v] = "" if rng.random() < 0.3 else "val%d" % rng.randrange(100)
+            if ri == 0:
+                vs["var0"] = "keep"      # the storage never becomes empty
+            elif "var0" in vs:
+                del vs["var0"]
+            rounds.append({"accounts": accts, "vars": vs})
+        cases.append({"rounds": rounds, "qaccts": names + ["ctr", "nobody"], "qvars": vnames + ["novar"], "contract": "ctr"})
+    return cases
+
+
+def statedb_predicates(cases, obs):
+    fails, n = [], 0
+    for c, os_ in zip(cases, obs):
+        accts, vars_, hist = {}, {}, []
+        for r in c["rounds"]:
+            accts.update(r["accounts"])
+            for k, v in r["vars"].items():
+                if v == "":
+                    vars_.pop(k, None)
+                else:
+                    vars_[k] = v
+            hist.append((dict(accts), dict(vars_)))
+        for o in os_:
+            n += 1
+            a, v = hist[o["round"]]
+            rep = {"case": c, "obs": o}
+            if o["err"]:
+                fails.append(("statedb-proof-error", "GetAccountAndProof/GetVarAndProof failed: " + o["err"], rep))
+                continue
+            if o["kind"] == "account":
+                exp = o["name"] in a
+                good = (not exp) or o["nonce"] == a[o["name"]]
+            else:
+                exp = o["name"] in v
+                good = (not exp) or o["value"] == v[o["name"]]
+            if o["inclusion"] != exp or not good:
+                fails.append(("statedb-proof-content", "statedb proof reports inclusion/state different from what was written", rep))
+            elif not o["verified"]:
+                fails.append(("statedb-proof-rejected", "honest statedb proof rejected by the trie verifier", rep))
+    return fails, n
+
+
 def query_line(d):
     ap = ",".join(x if x else "." for x in d["ap"]) or "-"
     return "V %s %s %s %s %s %d %s %s" % (d["kind"], d["root"] or "-", d["key"], d["value"] or "-", d["pk"] or "-",
@@ -211,11 +268,15 @@ def run(ctx):
         k = bytes([7] * 32).hex()
         cases.append({"hash": hn, "atomic": False, "proofs": 2, "shape": "empty",
                       "batches": [{"k": [k], "v": ["ab" * 32], "commit": True}, {"k": [k], "v": ["00"], "commit": True}], "q": [k]})
-    lines = tg.run_engine(ctx, binp, "TestVerifTrieOps", cases, "c11")
+    lines, crash = tg.run_engine_safe(ctx, binp, "TestVerifTrieOps", cases, "c11")
+    fails = []      # (key, what, replay)
+    if crash is not None:
+        fails.append(("crash", "the trie panics (process killed) on this op sequence", cases[crash]))
+        forged = [f for f in forged if f[0] < crash]
+        cases = cases[:crash]
     obs = [json.loads(l) for l in lines]
     if len(obs) != len(cases):
         raise RuntimeError("engine returned %d observations for %d cases" % (len(obs), len(cases)))
-    fails = []      # (key, what, replay)
     corr = None
     # ---- honest proofs: direct predicates
     nproofs = 0
@@ -347,8 +408,17 @@ def run(ctx):
                 corr = corr or ("real verifier and model verifier disagree on %d of %d queries" % (len(bad), len(tq)),
                                 [{"variant": b[0][0], "query": b[0][1], "impl": b[1], "model": b[2]} for b in bad[:3]])
         ctx.cov["model_verdicts_compared"] = len(tq)
+    # ---- statedb level: GetAccountAndProof / GetVarAndProof through the real verifiers
+    rc, log, sbin = ctx.go_test_binary("state/statedb", [SDB_ENGINE], "statedb.test", use_overlay=False)
+    if rc != 0:
+        raise RuntimeError("statedb engine build failed:\n" + log[-3000:])
+    scases = statedb_cases(rng, 6 if ctx.tier == "quick" else 150)
+    sobs = [json.loads(l) for l in tg.run_engine(ctx, sbin, "TestVerifStateDBProofs", scases, "c11s")]
+    sf, nsdb = statedb_predicates(scases, sobs)
+    fails += sf
     # ---- evidence
-    ctx.cov["evaluations"] = nproofs + len(queries)
+    ctx.cov["statedb_proofs_verified"] = nsdb
+    ctx.cov["evaluations"] = nproofs + len(queries) + nsdb
     ctx.cov["traces_validated_against_impl"] = ctx.cov.get("model_proofs_compared", 0) + ctx.cov.get("model_verdicts_compared", 0)
     ctx.cov["distinct_nontrivial"] = len({(d["kind"], d["root"], d["key"], d["value"], d["pk"], tuple(d["ap"]), d["bitmap"], d["length"])
                                           for lab, d, _, _, _ in queries if lab != "honest"})
